@@ -8,7 +8,8 @@
    the real code took.  Every theorem below is about all reachable states / all accepted steps. *)
 From Coq Require Import List NArith Bool Arith Permutation.
 From V Require Import gen.Consts model.Fetcher proofs.Fetcher proofs.FetcherDet proofs.FetcherSched
-  proofs.FetcherProps proofs.FetcherProps2 proofs.FetcherLive proofs.FetcherExamples proofs.FetcherBridge.
+  proofs.FetcherProps proofs.FetcherProps2 proofs.FetcherLive proofs.FetcherExamples proofs.FetcherBridge
+  proofs.FetcherChan proofs.FetcherArm.
 Import ListNotations.
 Open Scope N_scope.
 
@@ -212,3 +213,58 @@ Theorem add_keys_idle_clean : forall iter s h inc held,
               (kept s held ++ map (fun x => (x, (h, now s + FETCH_T))) (unheld_inc held inc)) /\
   tbf post = [] /\ range post = None /\ farthest post = None /\ now post = now s.
 Proof. exact add_keys_idle_clean_lemma. Qed.
+
+(* ---- "a timed-out holder being reported", end to end.  `send_event` hands the event to a spawned
+   task that awaits `Sender::send`: the NetworkEvent channel is a bounded queue plus the senders waiting
+   for capacity.  Whatever its capacity (> 0) and occupancy, once the consumer drains it everything that
+   was in it and everything emitted since is delivered, each exactly once, in order ... *)
+Theorem chan_delivers_all : forall c evs, ch_wf c ->
+  ch_drain (length (ch_contents c) + length evs) (fold_left ch_send evs c) = ch_contents c ++ evs.
+Proof. exact chan_delivers_all_lemma. Qed.
+
+(* ... whereas a non-blocking try_send drops the report when the queue is full *)
+Theorem try_send_loses_report :
+  exists c e, ch_wf c /\
+    ch_drain (length (ch_contents c) + 1) (ch_try_send c e) = ch_contents c /\ ~ In e (ch_contents c).
+Proof. exact try_send_loses_report_lemma. Qed.
+
+(* so every timed-out holder is reported by the step that prunes it and the report reaches the consumer *)
+Theorem timed_out_report_delivered : forall tr1 o out post tr2 c e,
+  valid (tr1 ++ (o, out, post) :: tr2) -> ch_wf c -> schedules o = true ->
+  In e (ongoing (last_state init tr1)) -> op_completes o e = false -> expired (last_state init tr1) e ->
+  let tr := tr1 ++ (o, out, post) :: tr2 in
+  let delivered := ch_drain (length (ch_contents c) + length (emitted tr)) (fold_left ch_send (emitted tr) c) in
+  delivered = ch_contents c ++ emitted tr /\
+  exists ev, events out = [ev] /\ In (og_holder e) ev /\ In ev delivered.
+Proof. exact timed_out_report_delivered_lemma. Qed.
+
+(* what the correspondence run checks on histories whose events are delivered late *)
+Theorem agree_deferred_sound : forall tr delivered,
+  agree_deferred tr delivered = true ->
+  valid (reemit init tr) /\ events_eqb (emitted (reemit init tr)) delivered = true.
+Proof. exact agree_deferred_sound_lemma. Qed.
+
+(* ---- "once the node is full nothing farther than its farthest held record is fetched", at the
+   driver glue: the PutLocalRecord arm of handle_local_cmd = [set_farthest_on_full on MaxRecords];
+   notify_about_new_put; [set_replication_distance_range].  In this order nothing the arm emits, keeps
+   in flight or keeps queued is farther than the store's farthest record; in the other order it is. *)
+Theorem put_arm_order : forall pre kf k t rng out post,
+  reachable pre ->
+  run_ok pre (arm_steps pre (PutMaxRecords (Some kf)) k t rng out post) = true ->
+  (forall p, In p (ret out) -> kdist (snd p) <= kdist kf) /\
+  (forall e, In e (ongoing post) -> kdist (og_key e) <= kdist kf) /\
+  (forall x, In x (tbf post) -> kdist (kth_key (fst x)) <= kdist kf).
+Proof. exact put_arm_order_lemma. Qed.
+
+Theorem put_arm_wrong_order_refuted :
+  exists pre fk k t out mid post p,
+    reachable pre /\ run_ok pre (arm_steps_wrong pre (Some fk) k t out mid post) = true /\
+    In p (ret out) /\ kdist fk < kdist (snd p) /\ ~ In (snd p) (map og_key (ongoing post)).
+Proof. exact put_arm_wrong_order_refuted_lemma. Qed.
+
+(* histories with arm items (what the driver-level correspondence evaluates) are valid histories *)
+Theorem run_items_sound : forall its s,
+  run_items s its = true ->
+  run_ok s (expand s its) = true /\
+  last_state s (expand s its) = fold_left (fun _ it => item_post it) its s.
+Proof. exact run_items_sound_lemma. Qed.
